@@ -169,7 +169,16 @@ def mon_c12(case, ots):
     if v.user_close_at is not None and v.user_close_at < v.close_recv_at:
         return None   # acknowledgement of our own close: reported unchanged, nothing sent in reply (checked by correspondence)
     if not closes:
-        return None   # not sent yet (C13 decides whether that is acceptable)
+        # not on the wire: acceptable only while it can still be sent - not once the endpoint reported the
+        # connection closed on a live transport, and not after a drained accepting tail
+        tail = 0
+        for o in reversed(v.ops):
+            if o == v.ops[-1] and o in ('f', 'r', 'c:-'): tail += 1
+            else: break
+        w = mon_c13(case, ots, tail if tail >= 3 else 0)
+        if w:
+            return 'reply-never-sent: ' + w.split(': ', 1)[1]
+        return None
     p = closes[0].payload
     wire_rep = '-' if len(p) == 0 else '%d:%s' % ((p[0] << 8) | p[1], ws.hx(p[2:]))
     if wire_rep != rep:
@@ -255,38 +264,76 @@ def mon_c11(case, ots):
     return None
 
 def mon_c11_sent(case, ots):
-    """with an accepting transport and unlimited buffer: the pong for the last delivered ping is on the wire after
-    the next successful read/write/flush call, unless closing began or a user pong replaced it"""
+    """unlimited buffer: for each ping delivered while open, the first later read/write/flush call whose transport
+    writes and flush all succeed (or that makes no transport call at all) must leave the matching pong written AND
+    flushed - unless a user pong, a newer ping, or the start of closing superseded it first. Event-level scan."""
     v = View(case, ots)
     if case.max is not None or any(o.startswith('wf:') for o in v.ops):
         return None
+    # event-level positions: cumulative wire length after every event, and where F:ok events are
+    pos = []          # (op index, kind, wire_len_after)
+    wl = 0
+    for i, ot in enumerate(ots):
+        for e in ot.events:
+            if e.startswith('W:'):
+                p = e.split(':')
+                if p[2] not in ('e', '-'):
+                    wl += len(p[2]) // 2
+                pos.append((i, 'W', wl))
+            elif e == 'F:ok':
+                pos.append((i, 'Fok', wl))
+            else:
+                pos.append((i, 'x', wl))
+    # end offsets of pong frames on the final wire
+    pongs = []
+    off = 0
+    for f in v.frames:
+        end = off + f.hdr_len + f.length
+        if f.opcode == 10 and f.complete:
+            pongs.append((f.payload, end))
+        off = end
+    used = 0
     for i, (op, ot) in enumerate(zip(v.ops, ots)):
-        if op == 'r' and ot.res.startswith('ok:PI:'):
-            if v.began_closing_at is not None and v.began_closing_at <= i:
+        if not (op == 'r' and ot.res.startswith('ok:PI:')):
+            continue
+        if v.began_closing_at is not None and v.began_closing_at <= i:
+            continue
+        payload = ws.unhx(ot.res[6:])
+        # first later call that can be held responsible
+        for j in range(i + 1, len(ots)):
+            o2 = v.ops[j]
+            if o2 in ('cr', 'cw') or o2.startswith('sb:'):
                 continue
-            payload = ws.unhx(ot.res[6:])
-            # the next r/w/f call
-            for j in range(i + 1, len(ots)):
-                o2 = v.ops[j]
-                if o2 in ('cr', 'cw') or o2.startswith('sb:'):
-                    continue
-                if o2.startswith('wpo:') or _is_close(o2):
-                    break       # replaced by a user pong / closing begins
-                r2 = ots[j].res
-                all_writes_ok = all(not (e.startswith('W:') and ':e:' in e) and e != 'F:e:wb' and not e.startswith('F:e:') for e in ots[j].events)
-                if not all_writes_ok or any(e.startswith('W:') and e.split(':')[2] == '-' for e in ots[j].events):
-                    break       # a write or flush did not succeed: postponed
-                if r2.startswith('err:') and not r2.startswith('err:io:wb'):
+            if o2.startswith('wpo:') or _is_close(o2):
+                break                      # superseded by a user pong / closing begins
+            evs = ots[j].events
+            failed = any((e.startswith('W:') and (':e:' in e or e.split(':')[2] == '-')) or e.startswith('F:e:') for e in evs)
+            if failed:
+                continue                   # postponed: look at the next call
+            r2 = ots[j].res
+            if r2.startswith('err:') and not r2.startswith('err:io:wb'):
+                break                      # hard error / connection over
+            # by the end of call j the pong must be on the wire and flushed afterwards (in call j or earlier)
+            end = None
+            for (pl, e_) in pongs:
+                if pl == payload and e_ > 0:
+                    end = e_; break
+            sent_flushed = False
+            if end is not None:
+                reached = False
+                for (k, kind, w_) in pos:
+                    if k > j: break
+                    if w_ >= end: reached = True
+                    if reached and kind == 'Fok' and w_ >= end:
+                        sent_flushed = True; break
+            if not sent_flushed:
+                # a newer ping delivered in between replaces the pong legitimately
+                newer = any(v.ops[t] == 'r' and ots[t].res.startswith('ok:PI:') for t in range(i + 1, j + 1))
+                closed = any(ots[t].res.startswith('ok:C') for t in range(i + 1, j + 1))
+                if newer or closed:
                     break
-                if ots[j].res.startswith('ok:C') or (ots[j].res.startswith('ok:PI:')):
-                    pass
-                frames, _ = ws.parse_frames(v.wire[:v.cum[j]])
-                if not any(f.opcode == 10 and f.complete and f.payload == payload for f in frames):
-                    # a newer ping may have replaced it within the same read call only if that call delivered it; it did not
-                    return 'pong-not-sent: ping %s delivered at op %d; op %d (%s) had only successful transport writes but the pong is not on the wire' % (ws.hx(payload), i, j, o2)
-                if 'F:ok' not in ots[j].events:
-                    return 'pong-not-flushed: ping delivered at op %d; op %d wrote the pong without flushing the transport' % (i, j)
-                break
+                return 'pong-not-sent: ping %s delivered at op %d; op %d (%s) had no failing transport call, yet the pong is not written and flushed by then' % (ws.hx(payload), i, j, o2)
+            break
     return None
 
 def mon_c14(case, ots):
@@ -322,4 +369,40 @@ def mon_c14_bound(case, ots):
                 off = int(e.split(':')[1])
                 if off > case.max:
                     return 'buffer-over-max: op %d offered %d unsent bytes to the transport with max_write_buffer_size %d' % (i, off, case.max)
+    return None
+
+
+def mon_emptybuf(ots):
+    for i, ot in enumerate(ots):
+        if 'R:EMPTYBUF' in ot.events:
+            return 'false-eof: call %d read the transport with a zero-length buffer while bytes were available (reported as end of stream)' % i
+    return None
+
+def mon_c14_batching(case, ots):
+    """after a successful flush nothing is pending; until the next read / pong / close, a data write that keeps the
+    unsent data at or below write_buffer_size must not touch the transport"""
+    if case.max is not None or any(o.startswith('sb:') or o.startswith('wf:') for o in case.ops):
+        return None
+    quiet = False
+    unsent = 0
+    for i, (op, ot) in enumerate(zip(case.ops, ots)):
+        k = op.split(':')[0]
+        if k == 'f':
+            quiet = (ot.res == 'ok'); unsent = 0
+            continue
+        if k in ('cr', 'cw'):
+            continue
+        if k in ('wt', 'wb', 'wpi') and quiet and ot.res == 'ok':
+            fr = op_frame(case, op)
+            n = len(fr[1])
+            size = 2 + (0 if n < 126 else 2 if n < 65536 else 8) + (4 if case.role == 'c' else 0) + n
+            if unsent + size <= case.wbs:
+                if ot.events:
+                    return 'not-batched: write op %d (%d unsent + %d byte frame <= write_buffer_size %d, nothing pending) touched the transport: %s' % (
+                        i, unsent, size, case.wbs, ' '.join(ot.events)[:80])
+                unsent += size
+            else:
+                quiet = False
+            continue
+        quiet = False
     return None
